@@ -1,0 +1,31 @@
+//go:build verif
+
+package sync
+
+import (
+	"context"
+
+	"github.com/celestiaorg/go-header"
+	goheaderstore "github.com/celestiaorg/go-header/store"
+	ds "github.com/ipfs/go-datastore"
+
+	"github.com/evstack/ev-node/pkg/genesis"
+)
+
+// Hooks for the external verification harness (/verif). Compiled only with
+// `-tags verif`; they add entry points and change no behaviour.
+
+// VerifBootstrap runs the service's own initialisation of the P2P store with an item received from a peer
+// (initStoreAndStartSyncer, what setFirstAndStart calls) on a service that consists of a real go-header store and
+// the genesis only; the syncer is marked as started so that nothing else is touched. It reports whether the store
+// holds a head afterwards, and the error of the init path.
+func VerifBootstrap[H header.Header[H]](ctx context.Context, kv ds.Batching, gen genesis.Genesis, initial H) (bool, error) {
+	st, err := goheaderstore.NewStore[H](kv, goheaderstore.WithStorePrefix("verif"))
+	if err != nil {
+		return false, err
+	}
+	svc := &SyncService[H]{genesis: gen, store: st, syncerStatus: new(SyncerStatus)}
+	svc.syncerStatus.started.Store(true)
+	err = svc.initStoreAndStartSyncer(ctx, initial)
+	return st.Height() > 0, err
+}
